@@ -124,3 +124,9 @@ package keygen
 //@   ensures[C14] result1 != nil ==> result0 == nil
 //@   ensures[C14] result1 == nil ==> (result0 != nil && len(result0.ChainKey) == 32)
 //@   assert_at[C14] DeriveScalar "bip32.DeriveScalar(publicKey, r.ChainKey, i)": arg1 == r.ChainKey && arg2 == i && ptval(arg0) == liftx(bval(r.PublicKey))
+
+// The configuration handed out carries the agreed chain key (C14): the XOR over all parties' decommitted
+// contributions (r.ChainKeys, filled only through the decommitment gate of StoreBroadcastMessage above).
+//@ func (*round3).Finalize
+//@   assert_at[C14] ResultRound "return r.ResultRound(&Config{": typeis(arg1, *Config) && arg1.(*Config).ChainKey == ChainKey && len(ChainKey) == 32
+//@   assert_at[C14] ResultRound "return r.ResultRound(&TaprootConfig{": typeis(arg1, *TaprootConfig) && arg1.(*TaprootConfig).ChainKey == ChainKey && len(ChainKey) == 32
